@@ -151,3 +151,31 @@ var famRunaway = &family{
 		}
 	},
 }
+
+// ---------------------------------------------------------------------------------------------
+// (h) Generate on generic generators that have none of the optional handlers
+
+func boundGenTokens(q bool) int {
+	if q {
+		return 4
+	}
+	return 5
+}
+
+var famGenericGenerators = &family{
+	name: "h-generic-generators",
+	size: func(q bool) int64 { return countSeq(len(tokenAlphabet), boundGenTokens(q)) },
+	bound: func(q bool) string {
+		return fmt.Sprintf("every sequence of <= %d tokens over the %d-token alphabet x Generate of funcGen.New[float64] configured like example/minimal.go and funcGen.New[bool] like example/bool.go (no list, map, method, closure handler, no string converter) x comments+comfort off and on (sequences of the maximal length: float64 with both on, bool with both off)", boundGenTokens(q), len(tokenAlphabet))
+	},
+	eval: func(r *runner, i int64) {
+		src := strings.Join(tokensOf(i, &r.digits), " ")
+		longest := len(r.digits) == boundGenTokens(r.ctx.Quick())
+		for _, in := range r.gen {
+			if longest && (in.spec.table == "minimal") != in.spec.comfort {
+				continue
+			}
+			r.exec("h-generic-generators", i, 0, in, src, "")
+		}
+	},
+}
